@@ -786,10 +786,10 @@ def _reparent_children(tt, old_parent, new_parent):
 
 
 def _reparent_transform_children(tt, old_parent, new_parent):
-    by_parent = tt.by_parent()
-    for child in by_parent[old_parent]:
+    children = tt.by_parent().get(old_parent, set())
+    for child in children:
         tt.adjust_path(tt.final_name(child), new_parent, child)
-    return by_parent[old_parent]
+    return children
 
 
 def new_by_entry(path, tt, entry, parent_id, tree):
@@ -1127,7 +1127,8 @@ def resolve_duplicate(tt, path_tree, c_type, last_trans_id, trans_id, name):
         _reparent_transform_children(tt, existing_file, new_file)
         tt.delete_contents(existing_file)
         tt.unversion_file(existing_file)
-        tt.cancel_creation(existing_file)
+        if tt.new_contents(existing_file):
+            tt.cancel_creation(existing_file)
     else:
         new_name = tt.final_name(existing_file) + ".moved"
         tt.adjust_path(new_name, final_parent, existing_file)
@@ -1491,15 +1492,27 @@ class PreviewTree:
         segments = osutils.splitpath(path)
         cur_parent = self._transform.root
         for cur_segment in segments:
+            dead = None
             for child in self._all_children(cur_parent):
                 final_name = self._final_name_cache.get(child)
                 if final_name is None:
                     final_name = self._transform.final_name(child)
                     self._final_name_cache[child] = final_name
                 if final_name == cur_segment:
+                    if self._transform.final_kind(
+                        child
+                    ) is None and not self._transform.final_is_versioned(child):
+                        # A name whose contents are removed and which is not
+                        # versioned does not exist in the result; another
+                        # child may carry the same name.
+                        dead = child
+                        continue
                     cur_parent = child
                     break
             else:
+                if dead is not None:
+                    cur_parent = dead
+                    continue
                 self._path2trans_id_cache[path] = None
                 return None
         self._path2trans_id_cache[path] = cur_parent
@@ -1542,8 +1555,11 @@ class PreviewTree:
         try:
             return self._transform._new_executability[trans_id]
         except KeyError:
+            tree_path = self._transform.tree_path(trans_id)
+            if tree_path is None:
+                return False
             try:
-                return self._transform._tree.is_executable(path)
+                return self._transform._tree.is_executable(tree_path)
             except FileNotFoundError:
                 return False
             except NoSuchFile:
@@ -1564,7 +1580,13 @@ class PreviewTree:
         elif trans_id in self._transform._removed_contents:
             return False
         else:
-            return self._transform._tree.has_filename(path)
+            if trans_id is None:
+                # not reachable through the transform: ask the base tree
+                return self._transform._tree.has_filename(path)
+            tree_path = self._transform.tree_path(trans_id)
+            if tree_path is None:
+                return False
+            return self._transform._tree.has_filename(tree_path)
 
     def get_file_sha1(self, path, stat_value=None):
         """Get the SHA1 hash of a file's contents.
@@ -1584,7 +1606,10 @@ class PreviewTree:
             raise NoSuchFile(path)
         kind = self._transform._new_contents.get(trans_id)
         if kind is None:
-            return self._transform._tree.get_file_sha1(path)
+            tree_path = self._transform.tree_path(trans_id)
+            if tree_path is None or trans_id in self._transform._removed_contents:
+                raise NoSuchFile(path)
+            return self._transform._tree.get_file_sha1(tree_path)
         if kind == "file":
             with self.get_file(path) as fileobj:
                 return osutils.sha_file(fileobj)
@@ -1607,7 +1632,10 @@ class PreviewTree:
             raise NoSuchFile(path)
         kind = self._transform._new_contents.get(trans_id)
         if kind is None:
-            return self._transform._tree.get_file_verifier(path)
+            tree_path = self._transform.tree_path(trans_id)
+            if tree_path is None or trans_id in self._transform._removed_contents:
+                raise NoSuchFile(path)
+            return self._transform._tree.get_file_verifier(tree_path)
         if kind == "file":
             with self.get_file(path) as fileobj:
                 return ("SHA1", osutils.sha_file(fileobj))
